@@ -222,7 +222,7 @@ MkQuery(r) ==
       sl == IF r[17] % 4 = 0 THEN 1 + (r[18] % 2) ELSE 0
       lim == IF r[21] % 3 = 0 THEN 1 + (r[22] % 3) ELSE 0
   IN [sel |-> sel,
-      sel2 |-> IF sel # "raw" /\ r[3] % 4 = 3 THEN Sels[(r[1] % 7) + 2] ELSE "none",
+      sel2 |-> IF sel # "raw" /\ r[3] % 4 = 3 /\ Sels[(r[1] % 7) + 2] # sel THEN Sels[(r[1] % 7) + 2] ELSE "none",   \* (two identical calls are one call)
       tlo |-> lo, thi |-> hi,
       tagop |-> Pick1(r, 9, <<"none", "none", "none", "eq", "ne">>),
       tagv |-> Pick1(r, 10, <<"a", "b", "c", "a", "b", "c", "zz">>),
@@ -245,7 +245,7 @@ Normalize(d, qq) == IF qq.sel = "raw" /\ (qq.limit > 0 \/ qq.offset > 0) /\ HasT
 FocusFill(r, qq) ==
   LET wnd == Pick1(r, 4, <<2, 3, 4, 5, 2, 3>>)
       lo == r[6] % 4
-  IN [qq EXCEPT !.sel = Sels[(r[2] % 7) + 2], !.sel2 = IF r[3] % 2 = 0 THEN Sels[(r[1] % 7) + 2] ELSE "none", !.w = wnd, !.off = IF r[13] % 3 = 0 THEN (r[14] % 5) - 2 ELSE 0,
+  IN [qq EXCEPT !.sel = Sels[(r[2] % 7) + 2], !.sel2 = IF r[3] % 2 = 0 /\ Sels[(r[1] % 7) + 2] # Sels[(r[2] % 7) + 2] THEN Sels[(r[1] % 7) + 2] ELSE "none", !.w = wnd, !.off = IF r[13] % 3 = 0 THEN (r[14] % 5) - 2 ELSE 0,
                 !.tlo = lo, !.thi = 12 - (r[8] % 3), !.gtag = TRUE,
                 !.fill = Pick1(r, 16, <<"previous", "previous", "num", "null">>),
                 !.tagop = "none", !.fop = IF r[11] % 4 = 0 THEN "gt" ELSE "none", !.fk = (r[12] % 5) - 2,
